@@ -81,7 +81,7 @@ def toml_ok_stream(docs):
 
 
 def run(ctx):
-    n = 150 if ctx.tier == "quick" else 4000
+    n = ctx.n(150, 4000)
     rng = core.Rng(ctx.seed)
     streams = [gen_stream(rng.fork("s%d" % i)) for i in range(n)]
     libfmts = ["json", "jsonl", "json-pretty", "yaml", "yml", "toml"]
